@@ -174,7 +174,7 @@ def run(ctx):
         "correspondence: every flag site x every tri-state cache state of the operands "
         "(flags of the real result vs the generated Coq expression, vm_compute); oracle: "
         "pool of 19 exact 2x2 operators x 4 cache states x 60 operations, all pairs for 10 "
-        "binary operations, random chains of depth 2-4 with reads interleaved, solver outputs; "
+        "binary operations, random chains of depth 2-4 with reads interleaved, solver outputs incl. the steady-state functions; "
         "a case is distinct by (operation, operands, cache states / chain)")
     ctx.cov["trusted_base"] += [
         "translator tools/tx_c03_flags.py (supported subset: and/or/not/if-else over the "
@@ -185,7 +185,12 @@ def run(ctx):
         "change are similarities by a unitary matrix",
         "tolerance-based predicates (abs(..) < atol) are modelled by their exact versions",
         "not under a theorem (oracle only): trunc_neg, _superpauli_basis, "
-        "_choi_to_stinespring literals, QobjEvo.__call__ (Cython), tidyup, data setter",
+        "_choi_to_stinespring literals, tidyup, data setter; constructor literals in "
+        "operators/states/gates/random_objects/energy_restricted are delegated to C20",
+        "the translator scans every .py file of the package (and, textually, every Cython "
+        "source) for flag sites; a site that is neither translated, waived with a reason nor "
+        "in a delegated file fails closed",
+        "ss_power: division by a zero trace raises in Python, is 0 in the field model",
         "MathComp 1.15 (ssreflect, algebra, real_closed.mxtens)"]
     trans_ok = True
     try:
@@ -213,7 +218,7 @@ def run(ctx):
     n, found = run_oracle(ctx, 300 if ctx.quick else 6000)
     ctx.cov["oracle_operations"] = n
     ctx.cov["explanation"] = (
-        "16 theorems over generated flag terms (all dimensions, all cache states, all "
+        "theorems over generated flag terms (all dimensions, all cache states, all "
         "histories for the fixed-dimension fragment); generated terms validated against "
         "run-time flags; oracle compares every definite cached answer with recomputation.")
 
